@@ -47,13 +47,19 @@ def run(ctx):
     rep.rule("C14.R4", "plain '=' into allocated system vectors only on owned index sets", 15)
     rep.rule("C14.R5", "list/callee co-definition (non-contact, non-E_pot families)", 40)
     rep.rule("C14.R6", "scatter method m calls contr.m (frozen exception table)", 60)
+    rep.rule("C14.R8", "accumulation into index sets that may repeat an index (uDOF/qDOF of interactions) is unbuffered (np.add.at / COO)", 1)
+    rep.rule("C14.R10", "a contribution's stored initial state (q0 / u0) is written from its OWNED index set (my_qDOF / my_uDOF), the set the layout was built from", 2)
+    rep.rule("C14.R9", "the name that is inserted into the registry has been tested for uniqueness after its last change", 2)
     rep.rule("C14.R7", "repeatability: marker attributes are constructor data; the unique-name counter is monotone", 12)
     sm = sysmodel.SystemModel(ctx)
     r1_registry(ctx, sm)
     r2_counters(ctx, sm)
     r3_r4_r6_scatter(ctx, sm)
+    _r8_add_at(ctx, sm)
     sysmodel.codefinition(ctx, sm, "C14.R5", family=lambda p, m: not sysmodel.is_contact(m) and m != "E_pot")
     r7_markers_and_counter(ctx, sm)
+    r9_final_name_unique(ctx, sm)
+    r10_state_writeback(ctx, sm)
 
 
 # --------------------------------------------------------------------------
@@ -485,12 +491,132 @@ def r3_r4_r6_scatter(ctx, sm):
                         continue
                     if isinstance(st, ast.AugAssign):
                         rep.ok("C14.R4", construct, st, "accumulates")
+                        if k not in OWNED:
+                            # x[idx] += v is buffered: an index that occurs twice in idx receives only ONE of its summands.  The shared
+                            # sets are concatenations of subsystem sets (concatenate_uDOF) and repeat every index when both ends of an
+                            # interaction sit on the same body / rod, while the matrices (COO, duplicates summed) keep both terms.
+                            rep.bad("C14.R8", construct, st, f"`{norm_src(tg)} += ...` on the shared index set {var}.{k}DOF: fancy-index `+=` is buffered, so when the set repeats an "
+                                    f"index (two-point interaction between two points of the same body or rod) one of the two summands is lost and the vector no longer is "
+                                    f"the sum of the local contributions (and disagrees with its COO-assembled Jacobian)", f"{SYS}:{st.lineno}")
                     elif k in OWNED:
                         rep.ok("C14.R4", construct, st, f"plain store into owned index set ({k})")
                     else:
                         rep.bad("C14.R4", construct, st,
                                 f"plain '=' into the shared index set {var}.{k}DOF of a freshly allocated system vector: contributions "
                                 f"acting on the same degrees of freedom overwrite each other instead of adding up", f"{SYS}:{st.lineno}")
+
+
+def _r8_add_at(ctx, sm):
+    rep = ctx.rep
+    for mname, fn in sm.system.methods.items():
+        construct = f"{SYS}:System.{mname}"
+        for loop in sm.contr_loops(fn):
+            for call in loop.add_at:
+                if len(call.args) >= 2:
+                    k = sm.dof_kind(call.args[1], loop.var)
+                    if k is not None:
+                        rep.ok("C14.R8", construct, f"{norm_src(call)[:90]}: unbuffered accumulation on {loop.var}.{k}DOF")
+
+
+def r10_state_writeback(ctx, sm):
+    """assemble() builds system.q0 by concatenating contr.q0 over the contributions that own coordinates and gives each of them
+    my_qDOF = that slice.  Whatever writes contr.q0 / contr.u0 back must therefore read exactly that slice: qDOF / uDOF of an
+    interaction (force law with internal coordinates, controller) is the concatenation of its own and its subsystems' sets, so
+    writing q0 from it changes the length of q0 and shifts every later contribution at the next assemble()."""
+    rep = ctx.rep
+    n = 0
+    want = {"q0": "my_qDOF", "u0": "my_uDOF"}
+    for mname, fn in sm.system.methods.items():
+        C = f"{SYS}:System.{mname}"
+        for st in walk_no_nested(fn):
+            if not isinstance(st, ast.Assign):
+                continue
+            for tg in st.targets:
+                if isinstance(tg, ast.Attribute) and isinstance(tg.value, ast.Name) and tg.attr in want and tg.value.id not in ("self",):
+                    var = tg.value.id
+                    subs = [w for w in ast.walk(st.value) if isinstance(w, ast.Subscript) and isinstance(w.slice, ast.Attribute)
+                            and isinstance(w.slice.value, ast.Name) and w.slice.value.id == var]
+                    if not subs:
+                        continue
+                    n += 1
+                    idx = subs[0].slice.attr
+                    if idx == want[tg.attr]:
+                        rep.ok("C14.R10", C, f"{norm_src(st)}")
+                    else:
+                        rep.bad("C14.R10", C, st, f"`{var}.{tg.attr}` is written from the index set `{var}.{idx}` instead of the owned set `{var}.{want[tg.attr]}`: for a contribution "
+                                f"that also reads its subsystems' coordinates the stored initial state grows, and the next assemble() builds a longer, shifted system.{tg.attr}",
+                                f"{SYS}:{st.lineno}")
+    if n < 2:
+        raise AnalysisError("C14.R10: the write-back of contr.q0 / contr.u0 in set_new_initial_state was not found")
+
+
+def r9_final_name_unique(ctx, sm):
+    """Every definition of the name under which a contribution is registered must, on every path to the insertion
+    `self.contributions_map[contr.name] = contr`, pass a membership test of that name in the registry and leave it on the
+    'not a member' edge.  A renamed name that is inserted without being tested again can collide with an existing entry."""
+    rep = ctx.rep
+    add = sm.system.methods.get("add")
+    if add is None:
+        raise AnalysisError("System.add vanished")
+    C = f"{SYS}:System.add"
+    cfg = CFG(add)
+    ins = [n for n in cfg.nodes if n.kind == "stmt" and isinstance(n.ast, ast.Assign) and isinstance(n.ast.targets[0], ast.Subscript)
+           and norm_src(n.ast.targets[0].value) == "self.contributions_map"]
+    if len(ins) != 1:
+        rep.note("C14.R9: not exactly one registry insertion in System.add (pairing is decided by C14.R1)")
+        return
+    store = ins[0]
+    key = norm_src(store.ast.targets[0].slice)  # contr.name
+
+    def member_test(n, name):
+        """(True, label of the edge on which `name` is NOT in the registry) for test nodes on `name`"""
+        if n.kind != "test":
+            return None
+        t = n.ast
+        neg = False
+        while isinstance(t, ast.UnaryOp) and isinstance(t.op, ast.Not):
+            neg, t = not neg, t.operand
+        if isinstance(t, ast.Compare) and len(t.ops) == 1 and norm_src(t.left) == name and norm_src(t.comparators[0]) in ("self.contributions_map", "self.contributions_map.keys()"):
+            if isinstance(t.ops[0], ast.In):
+                return (not neg) is False if False else (True if neg else False)
+            if isinstance(t.ops[0], ast.NotIn):
+                return False if neg else True
+        return None
+
+    def check_def(dnode, name, what):
+        # is the store reachable from dnode without crossing a certifying edge of a membership test on `name`?
+        def edge_ok(a, b, lab):
+            cert = member_test(a, name)
+            return not (cert is not None and lab == cert)
+        starts = [m for m, _ in dnode.succ] if dnode is not cfg.entry else [cfg.entry]
+        tgt = target_of[name]
+
+        def redefines(n):
+            # a later (re)definition of the same name ends this definition's obligation (it has its own)
+            return n is not tgt and n is not dnode and n.kind == "stmt" and isinstance(n.ast, (ast.Assign, ast.AugAssign)) and any(
+                norm_src(t) == name for t in (n.ast.targets if isinstance(n.ast, ast.Assign) else [n.ast.target]))
+        reach = cfg.can_reach(starts, tgt, blocked=redefines, edge_ok=edge_ok)
+        if reach:
+            rep.bad("C14.R9", C, dnode.ast if dnode.ast is not None else key, f"{what} reaches `{norm_src(target_of[name].ast)}` without a test that it is not yet a key of "
+                    "the registry: two contributions can end up under one name and the registry loses one of them", f"{SYS}:{dnode.lineno}")
+        else:
+            rep.ok("C14.R9", C, f"{what}: tested for uniqueness before it is used")
+
+    target_of = {key: store}
+    # definitions of contr.name inside add(), plus the name the contribution arrives with (entry)
+    defs = [n for n in cfg.nodes if n.kind == "stmt" and isinstance(n.ast, ast.Assign) and any(norm_src(t) == key for t in n.ast.targets)]
+    check_def(cfg.entry, key, f"the name a contribution arrives with (`{key}`)")
+    for d in defs:
+        v = d.ast.value
+        if isinstance(v, ast.Name):
+            # contr.name = new_name: the obligation moves to the local (tested before the assignment)
+            target_of[v.id] = d
+            vdefs = [n for n in cfg.nodes if n.kind == "stmt" and isinstance(n.ast, (ast.Assign, ast.AugAssign))
+                     and any(norm_src(t) == v.id for t in (n.ast.targets if isinstance(n.ast, ast.Assign) else [n.ast.target]))]
+            for vd in vdefs:
+                check_def(vd, v.id, f"`{norm_src(vd.ast)}`")
+        else:
+            check_def(d, key, f"`{norm_src(d.ast)}`")
 
 
 MUTANTS = [
@@ -501,7 +627,13 @@ MUTANTS = [
     dict(id="c14-m3", what="assemble(): forget to advance nla_S", file=SYS,
          old="                self.nla_S += contr.nla_S\n", new="", expect="C14.R2"),
     dict(id="c14-m4", canary=True, what="h(): '+=' -> '='", file=SYS,
-         old="h[contr.uDOF] += contr.h(t, q[contr.qDOF], u[contr.uDOF])", new="h[contr.uDOF] = contr.h(t, q[contr.qDOF], u[contr.uDOF])", expect="C14.R4"),
+         old="np.add.at(h, contr.uDOF, contr.h(t, q[contr.qDOF], u[contr.uDOF]))", new="h[contr.uDOF] = contr.h(t, q[contr.qDOF], u[contr.uDOF])", expect="C14.R4"),
+    dict(id="c14-r8-orig", canary=True, what="h(): buffered += on uDOF (original defect: repeated indices lose a summand)", file=SYS,
+         old="np.add.at(h, contr.uDOF, contr.h(t, q[contr.qDOF], u[contr.uDOF]))", new="h[contr.uDOF] += contr.h(t, q[contr.qDOF], u[contr.uDOF])", expect="C14.R8"),
+    dict(id="c14-r9-orig", canary=True, what="add(): generated name inserted without a second uniqueness test (original defect)", file=SYS,
+         old="                    while new_name in self.contributions_map:\n                        suffix += 1\n                        new_name = contr.name + \"_contr\" + str(suffix)\n", new="", expect="C14.R9"),
+    dict(id="c14-r9-2", what="add(): the arriving name is not tested at all", file=SYS,
+         old="                if contr.name in self.contributions_map:\n                    suffix = self.ncontr", new="                if False:\n                    suffix = self.ncontr", expect=["C14.R9", "C14.R1"]),
     dict(id="c14-m5", canary=True, what="W_gamma: columns indexed with la_gDOF", file=SYS,
          old="coo[contr.uDOF, contr.la_gammaDOF] = contr.W_gamma(t, q[contr.qDOF])", new="coo[contr.uDOF, contr.la_gDOF] = contr.W_gamma(t, q[contr.qDOF])", expect="C14.R3"),
     dict(id="c14-m6", what="c_u: u argument indexed with qDOF", file=SYS,
@@ -529,10 +661,19 @@ MUTANTS += [
     dict(id="c14-m14", what="Sphere2Plane creates the markers nq/nu during assembly (original defect)", file="cardillo/contacts/sphere2plane.py",
          old="        self._nq = len(self.qDOF)\n", new="        self.nq = len(self.qDOF)\n", expect="C14.R7"),
 ]
+MUTANTS += [
+    dict(id="c14-r10-seed", canary=True, what="[seeded by sub-agent] assemble() writes the consistent initial state back with qDOF / uDOF", file=SYS,
+         old="    def assembler_callback(self):\n        for contr in self.__assembler_callback_contr:",
+         new="        for contr in self.contributions:\n            if hasattr(contr, \"nq\"):\n                contr.q0 = self.q0[contr.qDOF]\n            if hasattr(contr, \"nu\"):\n                contr.u0 = self.u0[contr.uDOF]\n\n    def assembler_callback(self):\n        for contr in self.__assembler_callback_contr:", expect="C14.R10"),
+    dict(id="c14-r10-2", what="set_new_initial_state writes u0 from uDOF", file=SYS,
+         old="                contr.u0 = u0[contr.my_uDOF]", new="                contr.u0 = u0[contr.uDOF]", expect=["C14.R10", "C24.R3"]),
+]
 NEUTRAL = [
     dict(id="c14-n1", canary=True, what="rename loop-local and reformat", file=SYS,
-         old="        for contr in self.__h_contr:\n            h[contr.uDOF] += contr.h(t, q[contr.qDOF], u[contr.uDOF])",
-         new="        for c in self.__h_contr:\n            h[c.uDOF] += c.h(\n                t, q[c.qDOF], u[c.uDOF]\n            )"),
+         old="        for contr in self.__h_contr:\n            # unbuffered accumulation: uDOF repeats indices if an interaction acts twice on the same body\n            np.add.at(h, contr.uDOF, contr.h(t, q[contr.qDOF], u[contr.uDOF]))",
+         new="        for c in self.__h_contr:\n            np.add.at(\n                h, c.uDOF, c.h(t, q[c.qDOF], u[c.uDOF])\n            )"),
+    dict(id="c14-n3", what="add(): uniqueness loop written on contr.name itself", file=SYS,
+         old="                    contr.name = new_name\n", new="                    contr.name = new_name\n                    while contr.name in self.contributions_map:\n                        contr.name = contr.name + \"_\"\n"),
     dict(id="c14-n2", what="la_c scatter written with +=", file=SYS,
          old="la_c[contr.la_cDOF] = contr.la_c(t, q[contr.qDOF], u[contr.uDOF])", new="la_c[contr.la_cDOF] += contr.la_c(t, q[contr.qDOF], u[contr.uDOF])"),
 ]
